@@ -44,7 +44,11 @@ def handlers : List (String × (List Sexp → String)) := [
       let dirs ← dirTable ann
       let nm : Namer := { globalNs := ← strs? ns, generated := (← strs? gen).reverse }
       let out := cfOutput { ann, dirs } nm root
-      let σ₀ : Store := fun q => match q with | .sym _ => some (.int 0) | _ => none
+      -- every variable is bound to an object of its own, every slot of every object is empty
+      let σ₀ : Store := fun q => match q with | .sym s => some (.obj s.hash.toNat) | _ => none
+      let clsStr (k : StateClass) : String := match k with
+        | .missingComposite => "missingComposite" | .undefinedBase => "undefinedBase" | .dependent => "dependent"
+        | .aliased => "aliased" | .lawful => "lawful"
       let rows := (emitted out).map fun o => match o with
         | none => Sexp.atom "malformed"
         | some c =>
@@ -58,7 +62,7 @@ def handlers : List (String × (List Sexp → String)) := [
                     | none => false
                 | none => true
               | none => false
-            Sexp.list [Sexp.ofStrs (nameStrs c), Sexp.ofBool (missingComposite c σ₀), Sexp.ofBool changed]
+            Sexp.list [Sexp.ofStrs (nameStrs c), Sexp.ofBool (missingAt σ₀ es), Sexp.ofBool changed, .atom (clsStr (classify σ₀ es))]
       pure (toString (Sexp.list rows))),
   ("c03.check", fun a => run do
       let [tree] := a | none
@@ -89,6 +93,16 @@ def handlers : List (String × (List Sexp → String)) := [
       let g ← parseStmts tree
       let B ← strs? b0
       pure (toString (Sexp.list [Sexp.ofBool (noNativeCFL g), Sexp.ofBool (pdOkL g), Sexp.ofBool (nlOkL B g)]))),
+  -- why a generated program can leave the class `lawful` of the get/set theorems: read off the state tuples alone
+  ("c03.why", fun a => run do
+      let [tree] := a | none
+      let g ← parseStmts tree
+      let rows := (emitted g).map fun o => match o with
+        | none => Sexp.atom "malformed"
+        | some c => match entries c with
+          | none => Sexp.atom "no-entries"
+          | some es => Sexp.list [Sexp.ofNat es.length, Sexp.ofBool (staticComposite es), Sexp.ofBool (staticDependent es)]
+      pure (toString (Sexp.list rows))),
   ("c03.blockvars", fun a => run do
       let [m, li, lo, di, g, n] := a | none
       let r := Malt.Conv.BlockVars.blockVars (← strs? m) (← strs? li) (← strs? lo) (← strs? di) (← strs? g) (← strs? n)
